@@ -1,57 +1,258 @@
 (* C01 — Only authorised, existing, unspent outputs are ever spent.
    Statements only; proofs in proofs/TxValidProofs.v.  The model
-   (model/TxValid.v) is Transaction::validate + the pool's validity gate + the
-   final sweep of Block::validate, as repaired by the fix: commits listed in
-   known_findings.txt.  [sl_spendable] is "the ledger holds this output as
-   spendable" (C03 ties the ledger to the replay of the longest chain),
-   [t_sig_ok] is the real signature check against from[0]'s key. *)
+   (model/TxValid.v) is Transaction::validate (all transaction types, including
+   the BlockStake branch and the Bound / NFT branch) + the pool's validity gate +
+   the final sweep of Block::validate, as they stand at /repo HEAD.
+   [sl_spendable] is "the ledger holds this output as spendable" (C03 ties the
+   ledger to the replay of the longest chain), [t_sig_ok] is the real signature
+   check against from[0]'s key, [sl_unlocked] the real Blockchain::is_slip_unlocked.
+
+   The property at full strength,
+
+     forall e t, user_type t -> tx_validate e t = Valid -> SpendOK t          (FULL)
+
+   is FALSE for the code as it is: Bound-typed transactions are exempt from the
+   ownership check (C01_user_tx_spendok_refuted and the three witnesses below,
+   each reproduced on the real pool and inside an attacker block by harness c01).
+   It is proved for every user transaction outside the class Known_bound_foreign,
+   and for Bound transactions everything validation does establish is stated. *)
 From Saito Require Import Base TxValid TxValidProofs.
 
-(* every value-carrying input of an accepted user transaction is spendable in the
-   ledger, belongs to the key whose signature authorises the transaction, is
-   referenced once, and the transaction does not pay out more than it consumes
-   (sums in unbounded N; inputs are real ledger amounts, far below 2^64) *)
-Theorem C01_valid_user_tx_spendok : forall t,
-  user_type t -> tx_validate t = Valid -> SpendOK t.
+(* ------------------------------------------------------------------ positive *)
+
+(* every value-carrying input of an accepted user transaction that is not
+   Bound-typed -- Normal, GoldenTicket, Vip and, since the staking branch falls
+   through to the common checks, BlockStake -- is spendable in the ledger,
+   belongs to the key whose signature authorises the transaction, is referenced
+   once, and the transaction does not pay out more than it consumes (sums in
+   unbounded N; inputs are real ledger amounts, far below 2^64) *)
+Theorem C01_valid_user_tx_spendok : forall e t,
+  coin_type t -> tx_validate e t = Valid -> SpendOK t.
 Proof. exact valid_user_spendok. Qed.
 
+(* (FULL) outside the listed class *)
+Theorem C01_valid_tx_spendok_guarded : forall e t,
+  user_type t -> ~ Known_bound_foreign t -> tx_validate e t = Valid -> SpendOK t.
+Proof. exact valid_user_spendok_guarded. Qed.
+
+(* ... and inside it everything but ownership still holds *)
+Theorem C01_valid_tx_spendok_but_owner : forall e t,
+  user_type t -> tx_validate e t = Valid -> SpendOK_but_owner t.
+Proof. exact valid_user_but_owner. Qed.
+
+(* BlockStake transactions: SpendOK, and the staking rules: only BlockStake / Normal
+   outputs, the staked total reaches the requirement (in unbounded arithmetic, also
+   when the u64 sum wraps in a release build), every input is unlocked
+   (is_slip_unlocked), its key is set and encodes its amount, no input (zero-amount
+   ones included) is named twice *)
+Theorem C01_stake_tx_ok : forall e t,
+  t_type t = TStake -> tx_validate e t = Valid -> SpendOK t /\ StakeOK e t.
+Proof. exact valid_stake. Qed.
+
+(* a new NFT: full SpendOK (its single input is a Normal output of the signer), and
+   the NFT id written into the third output names exactly the consumed output *)
+Theorem C01_bound_create_ok : forall e t,
+  t_type t = TBound -> is_new_nft t = true -> tx_validate e t = Valid ->
+  SpendOK t /\ CreateOK t.
+Proof. exact valid_bound_create. Qed.
+
+(* a transfer of an NFT: inputs spendable, distinct, no inflation counting Bound slips
+   as 0, signed by the key in the FIRST BOUND SLIP (not by the holder of the Normal
+   slip); the Normal slip moved with the NFT is the output created right after the
+   Bound slip in the same transaction (same block_id, tx_ordinal, next slip_index):
+   it cannot be detached or replaced; both Bound slips are re-created with the same
+   key field and amount.  Nothing is established about the owner of the Normal slip
+   or of the further Normal inputs. *)
+Theorem C01_bound_send_guarantees : forall e t,
+  t_type t = TBound -> is_new_nft t = false -> tx_validate e t = Valid ->
+  SpendOK_but_owner t /\ SendOK e t.
+Proof. exact valid_bound_send. Qed.
+
 (* the pool applies the same gate and admits no producer-only transaction type *)
-Theorem C01_pool_gate : forall t, pool_gate t = true ->
-  t_type t <> TFee /\ t_type t <> TATR /\ t_type t <> TSPV /\ tx_validate t = Valid.
+Theorem C01_pool_gate : forall e t, pool_gate e t = true ->
+  t_type t <> TFee /\ t_type t <> TATR /\ t_type t <> TSPV /\ tx_validate e t = Valid.
 Proof. exact pool_gate_types. Qed.
 
-Corollary C01_pool_user_tx_spendok : forall t,
-  user_type t -> pool_gate t = true -> SpendOK t.
-Proof. intros t Hu Hp. apply valid_user_spendok; [exact Hu|]. now destruct (pool_gate_types t Hp) as (_ & _ & _ & H). Qed.
+Corollary C01_pool_user_tx_spendok : forall e t,
+  coin_type t -> pool_gate e t = true -> SpendOK t.
+Proof. intros e t Hu Hp. apply (valid_user_spendok e); [exact Hu|]. now destruct (pool_gate_types e t Hp) as (_ & _ & _ & H). Qed.
 
 (* block validation: every transaction of an accepted block validates ... *)
-Theorem C01_block_sweep_valid : forall txs t,
-  sweep [] txs = true -> In t txs -> tx_validate t = Valid.
-Proof. exact (sweep_all_valid []). Qed.
+Theorem C01_block_sweep_valid : forall e txs t,
+  sweep e [] txs = true -> In t txs -> tx_validate e t = Valid.
+Proof. intros e. exact (sweep_all_valid e []). Qed.
 
-(* ... and no value input is spent twice inside the block *)
-Theorem C01_block_no_double_spend : forall txs,
-  sweep [] txs = true -> NoDup (block_keys txs).
+(* ... and no value input (non-zero, non-Bound) is spent twice inside the block *)
+Theorem C01_block_no_double_spend : forall e txs,
+  sweep e [] txs = true -> NoDup (block_keys txs).
 Proof. exact sweep_no_double_spend. Qed.
+
+(* where social staking is required, an accepted block after the first carries exactly one
+   BlockStake transaction, and it satisfies SpendOK and the staking rules *)
+Theorem C01_block_stake_tx : forall e id txs,
+  block_txs_ok e id txs = true -> e_stake_req e <> 0 -> 1 < id ->
+  (e_ovf e = true \/ stake_count txs < 256) ->
+  stake_count txs = 1 /\
+  forall t, In t txs -> t_type t = TStake -> SpendOK t /\ StakeOK e t.
+Proof. exact block_stake_tx. Qed.
+
+(* ------------------------------------------------------------------ refuted *)
+
+(* the witnesses W_foreign, W_reclaim, W_fabricated and the predicate [steals] are defined at the
+   end of proofs/TxValidProofs.v, with the listed finding each of them reproduces *)
+Example C01_bound_foreign_input_refuted : steals W_foreign.
+Proof. repeat split; try (vm_compute; reflexivity).
+  exists (nslip 6 2000 23 1 8 0). repeat split; try (vm_compute; reflexivity).
+  - cbn. tauto.
+  - vm_compute. discriminate. Qed.
+Example C01_bound_creator_reclaims_refuted : steals W_reclaim.
+Proof. repeat split; try (vm_compute; reflexivity).
+  exists (nslip 6 400 22 2 3 1). repeat split; try (vm_compute; reflexivity).
+  - cbn. tauto.
+  - vm_compute. discriminate. Qed.
+Example C01_bound_fabricated_triple_refuted : steals W_fabricated.
+Proof. repeat split; try (vm_compute; reflexivity).
+  exists (nslip 6 2850 32 2 7 1). repeat split; try (vm_compute; reflexivity).
+  - cbn. tauto.
+  - vm_compute. discriminate. Qed.
+
+(* hence (FULL) fails *)
+Theorem C01_user_tx_spendok_refuted : exists e t,
+  user_type t /\ tx_validate e t = Valid /\ ~ SpendOK t.
+Proof.
+  exists env0, W_foreign. split; [|split].
+  - repeat split; vm_compute; discriminate.
+  - vm_compute. reflexivity.
+  - intros [_ _ _ Hown _ _].
+    specialize (Hown (nslip 6 2000 23 1 8 0) ltac:(cbn; tauto) ltac:(vm_compute; reflexivity)).
+    vm_compute in Hown. discriminate.
+Qed.
+(* the witnesses are in the listed class *)
+Example C01_witnesses_known :
+  Known_bound_foreign W_foreign /\ Known_bound_foreign W_reclaim /\ Known_bound_foreign W_fabricated.
+Proof. repeat split; vm_compute; reflexivity. Qed.
+
+(* listed finding bound-double-spend-in-block: the duplicate tests (in the transaction
+   and in the sweep) skip Bound slips, so an NFT without deposit can be transferred
+   twice in one block -- the same unspent Bound output (amount 1) consumed by two
+   accepted transactions, each re-creating the NFT for a different holder *)
+Example C01_bound_double_spend_refuted : exists t1 t2 s,
+  sweep env0 [] [t1; t2] = true /\ In s (t_from t1) /\ In s (t_from t2)
+  /\ 0 < sl_amount s /\ sl_spendable s = true /\ t_to t1 <> t_to t2.
+Proof.
+  set (f := [bslip 5 1 21 true 2 3 0; mkSlip 5 0 SNormal 22 false 2 3 1 false 0 0 0 0; bslip 77 0 0 false 2 3 2]).
+  exists (mkTx TBound f [oslip 5 1 SBound; oslip 5 0 SNormal; oslip 77 0 SBound] true true true),
+         (mkTx TBound f [oslip 5 1 SBound; oslip 6 0 SNormal; oslip 77 0 SBound] true true true),
+         (bslip 5 1 21 true 2 3 0).
+  repeat split; try (vm_compute; reflexivity); try (cbn; tauto). vm_compute. discriminate.
+Qed.
+
+(* listed finding replayed-signature-other-output (input-location-unsigned under C06):
+   the signed bytes contain public key, amount, slip_index and type of every input but
+   not block_id / tx_ordinal, so [t_sig_ok] cannot depend on which output is spent.
+   Whatever a key signed once validates again with its inputs replaced by other
+   spendable outputs of that key of the same amount, slip index and type. *)
+Theorem C01_signature_does_not_bind_inputs : forall e t t',
+  t_type t <> TStake -> t_type t <> TBound ->
+  signed_content t' = signed_content t ->
+  t_sig_ok t' = t_sig_ok t -> t_has_hash t' = t_has_hash t -> t_path_ok t' = t_path_ok t ->
+  nodupb (value_keys t') = true ->
+  forallb slip_validate (t_from t') = true ->
+  tx_validate e t = Valid -> tx_validate e t' = Valid.
+Proof. exact signature_does_not_bind_inputs. Qed.
+
+Example C01_replay_refuted : exists t t',
+  signed_content t' = signed_content t /\ t_sig_ok t' = t_sig_ok t
+  /\ tx_validate env0 t = Valid /\ tx_validate env0 t' = Valid
+  /\ value_keys t = [41] /\ value_keys t' = [42]
+  /\ SpendOK t'.
+Proof.
+  exists (mkTx TNormal [nslip 6 3000 41 1 12 0] [oslip 5 150 SNormal; oslip 6 2850 SNormal] true true true),
+         (mkTx TNormal [nslip 6 3000 42 1 13 0] [oslip 5 150 SNormal; oslip 6 2850 SNormal] true true true).
+  repeat (split; [vm_compute; reflexivity|]).
+  apply (valid_user_spendok env0); [repeat split; vm_compute; discriminate|vm_compute; reflexivity].
+Qed.
 
 (* listed finding (type-issuance-pool): an issuance-type transaction without inputs,
    minting to anyone, passes the pool's gate on a running chain *)
 Example C01_issuance_pool_refuted : exists t,
-  t_type t = TIssuance /\ t_from t = [] /\ pool_gate t = true /\ 0 < nsum (map counted (t_to t)).
+  t_type t = TIssuance /\ t_from t = [] /\ pool_gate env0 t = true /\ 0 < nsum (map counted (t_to t)).
 Proof.
-  exists (mkTx TIssuance [] [mkSlip 7 123456 0 99 false] false true true).
+  exists (mkTx TIssuance [] [oslip 7 123456 SNormal] false true true).
   repeat split; vm_compute; reflexivity.
 Qed.
 
-(* non-vacuity: a two-input transfer of one owner meets the hypotheses *)
+(* ------------------------------------------------------------------ non-vacuity *)
+
+(* a two-input transfer of one owner *)
 Example C01_example :
-  let t := mkTx TNormal [mkSlip 5 700 0 11 true; mkSlip 5 300 0 12 true]
-                        [mkSlip 6 900 0 13 false; mkSlip 5 100 0 14 false] true true true in
-  user_type t /\ tx_validate t = Valid /\ sweep [] [t] = true.
+  let t := mkTx TNormal [nslip 5 700 11 1 0 0; nslip 5 300 12 1 1 0]
+                        [oslip 6 900 SNormal; oslip 5 100 SNormal] true true true in
+  coin_type t /\ tx_validate env0 t = Valid /\ sweep env0 [] [t] = true.
 Proof. repeat split; try (vm_compute; congruence); vm_compute; reflexivity. Qed.
 
+(* the ownership rule covers every slip type except Bound: a second input of another key that is
+   an ATR (1), MinerOutput (5), RouterOutput (7) or BlockStake (8) slip is refused like a Normal one,
+   also when the signer is named by a zero-amount first input *)
+Example C01_foreign_typed_input_rejected :
+  forallb (fun ty =>
+    match tx_validate env0 (mkTx TNormal [nslip 5 700 11 1 0 0; mkSlip 6 300 ty 12 true 3 1 0 true 300 0 0 0]
+                                  [oslip 5 1000 SNormal] true true true),
+          tx_validate env0 (mkTx TNormal [nslip 5 0 0 0 0 0; mkSlip 6 300 ty 12 true 3 1 0 true 300 0 0 0]
+                                  [oslip 5 300 SNormal] true true true),
+          tx_validate env0 (mkTx TNormal [nslip 5 700 11 1 0 0; mkSlip 5 300 ty 12 true 3 1 0 true 300 0 0 0]
+                                  [oslip 5 1000 SNormal] true true true)
+    with Invalid, Invalid, Valid => true | _, _, _ => false end) [0; 1; 2; 3; 4; 5; 6; 7; 8] = true.
+Proof. vm_compute. reflexivity. Qed.
+
+(* a staking transaction under a requirement of 600: a Normal and an unlocked BlockStake input *)
+Example C01_stake_example :
+  let t := mkTx TStake [nslip 5 700 11 1 0 0; mkSlip 5 300 SStake 12 true 3 1 0 true 300 0 0 0]
+                       [oslip 5 600 SStake; oslip 5 400 SNormal] true true true in
+  tx_validate (mkEnv 600 true) t = Valid /\ tx_validate (mkEnv 601 true) t = Invalid.
+Proof. split; vm_compute; reflexivity. Qed.
+(* ... rejected when an input is locked, when the signer does not own an input, unsigned *)
+Example C01_stake_rejections :
+  let outs := [oslip 5 600 SStake; oslip 5 400 SNormal] in
+  tx_validate (mkEnv 600 true)
+    (mkTx TStake [nslip 5 700 11 1 0 0; mkSlip 5 300 SStake 12 true 3 1 0 false 300 0 0 0] outs true true true) = Invalid
+  /\ tx_validate (mkEnv 600 true) (mkTx TStake [nslip 5 700 11 1 0 0; nslip 6 300 12 1 1 0] outs true true true) = Invalid
+  /\ tx_validate (mkEnv 600 true) (mkTx TStake [nslip 5 700 11 1 0 0; nslip 5 300 12 1 1 0] outs false true true) = Invalid
+  /\ tx_validate (mkEnv 0 true) (mkTx TStake [] [oslip 5 600 SStake] true true true) = Invalid.
+Proof. repeat split; vm_compute; reflexivity. Qed.
+
+(* a new NFT minted from output (1, 4, 0), and its transfer by the creator *)
+Example C01_bound_examples :
+  let c := mkTx TBound [nslip 5 1000 11 1 4 0]
+             [oslip 5 1 SBound; oslip 6 400 SNormal; uslip 77 1 4 0; oslip 5 600 SNormal] true true true in
+  let s := mkTx TBound [bslip 5 1 21 true 2 3 0; nslip 5 400 22 2 3 1; bslip 77 0 0 false 2 3 2]
+             [oslip 5 1 SBound; oslip 6 400 SNormal; oslip 77 0 SBound] true true true in
+  tx_validate env0 c = Valid /\ is_new_nft c = true /\
+  tx_validate env0 s = Valid /\ is_new_nft s = false /\ ~ Known_bound_foreign s.
+Proof. repeat split; try (vm_compute; reflexivity). intros [_ H]. vm_compute in H. discriminate. Qed.
+(* rules of the NFT branch at work: wrong id, detached Normal slip, modified amount,
+   Bound slip smuggled into a Normal transaction *)
+Example C01_bound_rejections :
+  tx_validate env0 (mkTx TBound [nslip 5 1000 11 1 4 0]
+     [oslip 5 1 SBound; oslip 6 400 SNormal; uslip 77 1 5 0; oslip 5 600 SNormal] true true true) = Invalid
+  /\ tx_validate env0 (mkTx TBound [bslip 5 1 21 true 2 3 0; nslip 5 400 22 2 4 1; bslip 77 0 0 false 2 3 2]
+     [oslip 5 1 SBound; oslip 6 400 SNormal; oslip 77 0 SBound] true true true) = Invalid
+  /\ tx_validate env0 (mkTx TBound [bslip 5 1 21 true 2 3 0; nslip 5 400 22 2 3 1; bslip 77 0 0 false 2 3 2]
+     [oslip 5 2 SBound; oslip 6 400 SNormal; oslip 77 0 SBound] true true true) = Invalid
+  /\ tx_validate env0 (mkTx TNormal [nslip 5 1000 11 1 4 0]
+     [oslip 5 1000 SNormal; oslip 5 99 SBound] true true true) = Invalid.
+Proof. repeat split; vm_compute; reflexivity. Qed.
+
 Print Assumptions C01_valid_user_tx_spendok.
+Print Assumptions C01_valid_tx_spendok_guarded.
+Print Assumptions C01_valid_tx_spendok_but_owner.
+Print Assumptions C01_stake_tx_ok.
+Print Assumptions C01_bound_create_ok.
+Print Assumptions C01_bound_send_guarantees.
 Print Assumptions C01_pool_gate.
 Print Assumptions C01_pool_user_tx_spendok.
 Print Assumptions C01_block_sweep_valid.
 Print Assumptions C01_block_no_double_spend.
+Print Assumptions C01_block_stake_tx.
+Print Assumptions C01_user_tx_spendok_refuted.
+Print Assumptions C01_signature_does_not_bind_inputs.
